@@ -90,6 +90,35 @@ def check_case(case, info=None):
                 f'dictionary {case["dict"]}')
         if not np.array_equal(od, got_d):
             bad('dep-scores-touched', f'sentence {k}: dependency scores changed')
+    # the same Token objects after their words were changed through the dict interface (a document that is
+    # re-tokenised or corrected in place and filtered again): the filter goes by the words the tokens have NOW
+    if not fails and not single and any(len(ws) >= 2 for ws in case['docs']):
+        new_docs = [ws[1:] + ws[:1] for ws in case['docs']]
+        for d, ws in zip(docs, new_docs):
+            for k2, (tok, w) in enumerate(zip(d, ws)):
+                if k2 % 2:
+                    tok.update(word=w)
+                else:
+                    tok.pop('word')
+                    tok.update({'word': w})
+        scs3 = [ScoringResult(layout(ot.copy()), od.copy()) for ot, od in orig]
+        try:
+            d3, s3 = P.apply_category_filters(docs, scs3, cats, cd, **kw)
+        except Exception as ex:
+            bad(f'second-pass/raises/{type(ex).__name__}', f'{type(ex).__name__}: {ex}')
+            d3 = s3 = None
+        if s3 is not None:
+            for k, ((ot, od), s, ws) in enumerate(zip(orig, s3, new_docs)):
+                exp = ot.copy()
+                for i, w in enumerate(ws):
+                    if w in case['dict']:
+                        for j, c in enumerate(case['cats']):
+                            if c not in case['dict'][w]:
+                                exp[i, j] = neg
+                if s[0].shape != exp.shape or not np.array_equal(exp, s[0]):
+                    bad('second-pass/stale-words', f'sentence {k}: after the tokens\' words were changed in place to {ws} '
+                        f'the filter masked by other words (dictionary {case["dict"]})')
+                    break
     if info is not None:
         words = [w for ws in case['docs'] for w in ws]
         info['nontrivial'] = partial and any(w in case['dict'] for w in words) and any(w not in case['dict'] for w in words)
